@@ -310,6 +310,7 @@ fn check_cv(case: &CvCase, ctx: &mut Ctx) -> Result<(), Fail> {
 pub fn property() -> Property {
     Property {
         id: "C16",
+        quick_mult: 40,
         rule: "k-fold: exhaustive enumeration of all 2<=k<=n<=40 (quick) / 64 (thorough) without shuffling plus random (n<=120,k,shuffle) with 12 draws of the unseeded permutation per shuffled case; train_test_split on id-carrying matrices for test_size on a grid of 1/1000 steps and reciprocals; cross_validate / cross_val_predict driven with an echo estimator that records the row ids it was fitted on and returns row ids as predictions. non-trivial = n % k != 0 and k >= 3 (k-fold, cross-validation), 1 <= n_test < n and n >= 4 (split); distinct = distinct serialised case",
         assumptions: vec![
             "shuffled permutations come from the library's thread RNG and are not reproducible; every assertion made on them holds for all permutations, except 'shuffling is not constant', whose false-alarm probability is < 1e-14 per case".into(),
